@@ -36,330 +36,26 @@ impl<const K: usize> AffTree<K> {
 //@end
 }
 
-// row j of the polytope as a one-row predicate function
-pub open spec fn row_fn_of(f: AffFunc, p: Polytope, j: int) -> bool {
-    f.ok() && f.mat.ncols() == p.mat.ncols() && f.mat.nrows() == 1
-        && forall|x: V| x.len() == p.mat.ncols() ==> (#[trigger] f.row_sat(0, x) <==> p.row_sat(j, x))
-}
-// rule I14: `poly.row_iter()` with `.as_function().to_owned()` applied to every item: the rows of the polytope as owned one-row functions (TRUSTED helper)
-#[verifier::external_body]
-pub fn poly_row_fns(p: &Polytope) -> (r: Vec<AffFunc>)
-    ensures r@.len() == p.mat.nrows(), forall|j: int| 0 <= j < r@.len() ==> row_fn_of(#[trigger] r@[j], *p, j)
-{ unimplemented!() }
-
-pub proof fn lemma_row_fn_clone(f: AffFunc, g: AffFunc, p: Polytope, j: int)
-    requires row_fn_of(f, p, j), g.mat.m() == f.mat.m(), g.bias.v() == f.bias.v(), g.mat.nrows() == f.mat.nrows(), g.mat.ncols() == f.mat.ncols()
-    ensures row_fn_of(g, p, j)
-{
-    assert forall|x: V| x.len() == p.mat.ncols() implies (#[trigger] g.row_sat(0, x) <==> p.row_sat(j, x)) by { assert(f.row_sat(0, x) <==> p.row_sat(j, x)); }
-}
-
+//@include prelude/chain_build_spec.rs
+// the rows of a polytope as a RowSpec
+pub open spec fn rows_of(p: Polytope) -> RowSpec { RowSpec { n: p.mat.nrows() as int, dim: p.mat.ncols() as int, sat: |k: int, x: V| p.row_sat(k, x) } }
 // what from_poly has to denote
 pub open spec fn poly_fn(p: Polytope, ft: AffFunc, ff: Option<AffFunc>, x: V) -> Option<V> {
     if p.sat(x) { Some(ft.ap(x)) } else { match ff { Some(g) => Some(g.ap(x)), None => None } }
 }
-pub open spec fn same_ap(f: AffFunc, g: AffFunc) -> bool { f.ok() && f.mat.nrows() == g.mat.nrows() && f.mat.ncols() == g.mat.ncols() && f.mat.m() == g.mat.m() && f.bias.v() == g.bias.v() }
+pub proof fn lemma_rows_of_all(p: Polytope, x: V)
+    ensures rows_of(p).all(x) == p.sat(x)
+{
+    let r = rows_of(p);
+    if p.sat(x) { assert forall|k: int| 0 <= k < r.n implies #[trigger] (r.sat)(k, x) by { assert(p.row_sat(k, x)); } }
+    if r.all(x) { assert forall|k: int| 0 <= k < p.mat.nrows() implies #[trigger] p.row_sat(k, x) by { assert((r.sat)(k, x)); } }
+}
+// rule I14: `poly.row_iter()` with `.as_function().to_owned()` applied to every item: the rows of the polytope as owned one-row functions (TRUSTED helper)
+#[verifier::external_body]
+pub fn poly_row_fns(p: &Polytope) -> (r: Vec<AffFunc>)
+    ensures r@.len() == p.mat.nrows(), forall|j: int| 0 <= j < r@.len() ==> row_fn_of(#[trigger] r@[j], rows_of(*p), j)
+{ unimplemented!() }
 
-// state of the construction after j rows: chain nodes c[0..j), all but the last complete
-#[verifier::opaque]
-pub open spec fn fp_inv(a: AArena<2>, c: Seq<usize>, p: Polytope, ff: Option<AffFunc>, dim: usize, out: usize) -> bool {
-    &&& 1 <= c.len() <= p.mat.nrows() && c[0] == 0
-    &&& forall|i: usize| #[trigger] a.dom().contains(i) ==> a[i].value.aff.ok() && a[i].value.aff.mat.ncols() == dim
-    &&& forall|k: int| 0 <= k < c.len() ==> a.dom().contains(#[trigger] c[k]) && row_fn_of(a[c[k]].value.aff, p, k)
-    &&& forall|k1: int, k2: int| 0 <= k1 < k2 < c.len() ==> c[k1] != c[k2]
-    &&& forall|k: int| 0 <= k < c.len() - 1 ==> {
-            let nd = a[#[trigger] c[k]];
-            &&& !nd.isleaf && nd.children[1] == Some(c[k + 1])
-            &&& ff is Some ==> nd.children[0].is_some() && a.dom().contains(nd.children[0].unwrap()) && a[nd.children[0].unwrap()].isleaf
-                    && same_ap(a[nd.children[0].unwrap()].value.aff, ff.unwrap())
-            &&& ff is None ==> nd.children[0].is_none()
-        }
-    &&& a[c.last()].isleaf && no_kids(a[c.last()])
-    // terminals so far: the else-leaves
-    &&& forall|i: usize| a.dom().contains(i) && #[trigger] a[i].isleaf && i != c.last() ==> a[i].value.aff.mat.nrows() == out
-}
-
-pub proof fn lemma_fp_facts(a: AArena<2>, c: Seq<usize>, p: Polytope, ff: Option<AffFunc>, dim: usize, out: usize)
-    requires fp_inv(a, c, p, ff, dim, out)
-    ensures c.len() >= 1, a.dom().contains(c.last()), a[c.last()].isleaf, no_kids(a[c.last()]), c.len() <= p.mat.nrows()
-{
-    reveal(fp_inv);
-}
-pub proof fn lemma_fp_init(a: AArena<2>, p: Polytope, ff: Option<AffFunc>, dim: usize, out: usize)
-    requires a.dom() =~= set![0usize], a[0].isleaf, no_kids(a[0]), row_fn_of(a[0].value.aff, p, 0), p.mat.nrows() >= 1, p.mat.ncols() == dim
-    ensures fp_inv(a, seq![0usize], p, ff, dim, out)
-{
-    reveal(fp_inv);
-}
-
-// one more row: (optional) else-leaf below label 0, next decision n below label 1 of the last chain node
-pub proof fn lemma_fp_step(a0: AArena<2>, a1: AArena<2>, a2: AArena<2>, c: Seq<usize>, p: Polytope, ff: Option<AffFunc>, dim: usize, out: usize, e: usize, n: usize)
-    requires fp_inv(a0, c, p, ff, dim, out), c.len() < p.mat.nrows(), wf_at(a0, Some(0usize)), p.mat.ncols() == dim,
-        ff is Some ==> ff.unwrap().mat.ncols() == dim && ff.unwrap().mat.nrows() == out
-            && child_added(a0, a1, c.last(), 0, e) && a1[c.last()].value == a0[c.last()].value && same_ap(a1[e].value.aff, ff.unwrap()),
-        ff is None ==> a1 == a0,
-        child_added(a1, a2, c.last(), 1, n), a2[c.last()].value == a1[c.last()].value, row_fn_of(a2[n].value.aff, p, c.len() as int),
-    ensures fp_inv(a2, c.push(n), p, ff, dim, out)
-{
-    reveal(fp_inv);
-    let last = c.last();
-    let c2 = c.push(n);
-    assert(c[c.len() - 1] == last);
-    assert(n != last && !a1.dom().contains(n));
-    assert(a2[last].children[1] == Some(n)) by { assert(a2[last].children@[1] == Some(n)); }
-    if ff is Some {
-        assert(e != last && n != e);
-        assert(a2[e] == a1[e]);
-        assert(a2[last].children[0] == Some(e)) by { assert(a2[last].children@[0] == a1[last].children@[0]); assert(a1[last].children@[0] == Some(e)); }
-        assert forall|i: usize| a0.dom().contains(i) && i != last implies a2[i] == a0[i] by { assert(a1[i] == a0[i]); assert(a2[i] == a1[i]); }
-        assert forall|i: usize| #[trigger] a2.dom().contains(i) implies a2[i].value.aff.ok() && a2[i].value.aff.mat.ncols() == dim by {
-            if i != n && i != e { assert(a0.dom().contains(i)); }
-        }
-        assert forall|i: usize| a2.dom().contains(i) && #[trigger] a2[i].isleaf && i != n implies a2[i].value.aff.mat.nrows() == out by {
-            if i != e { assert(a0.dom().contains(i)); assert(i != last); }
-        }
-    } else {
-        assert(a2[last].children[0].is_none()) by { assert(a2[last].children@[0] == a1[last].children@[0]); }
-        assert forall|i: usize| a0.dom().contains(i) && i != last implies a2[i] == a0[i] by { assert(a2[i] == a1[i]); }
-        assert forall|i: usize| #[trigger] a2.dom().contains(i) implies a2[i].value.aff.ok() && a2[i].value.aff.mat.ncols() == dim by {
-            if i != n { assert(a0.dom().contains(i)); }
-        }
-        assert forall|i: usize| a2.dom().contains(i) && #[trigger] a2[i].isleaf && i != n implies a2[i].value.aff.mat.nrows() == out by {
-            assert(a0.dom().contains(i)); assert(i != last);
-        }
-    }
-    assert forall|k: int| 0 <= k < c2.len() implies a2.dom().contains(#[trigger] c2[k]) && row_fn_of(a2[c2[k]].value.aff, p, k) by {
-        if k < c.len() { assert(c2[k] == c[k]); assert(a0.dom().contains(c[k])); }
-    }
-    assert forall|k1: int, k2: int| 0 <= k1 < k2 < c2.len() implies c2[k1] != c2[k2] by {
-        assert(c2[k1] == c[k1]); assert(a0.dom().contains(c[k1]));
-        if k2 < c.len() { assert(c2[k2] == c[k2]); }
-    }
-    assert forall|k: int| 0 <= k < c2.len() - 1 implies ({
-            let nd = a2[#[trigger] c2[k]];
-            &&& !nd.isleaf && nd.children[1] == Some(c2[k + 1])
-            &&& ff is Some ==> nd.children[0].is_some() && a2.dom().contains(nd.children[0].unwrap()) && a2[nd.children[0].unwrap()].isleaf
-                    && same_ap(a2[nd.children[0].unwrap()].value.aff, ff.unwrap())
-            &&& ff is None ==> nd.children[0].is_none()
-        }) by {
-        assert(c2[k] == c[k]);
-        assert(a0.dom().contains(c[k]));
-        if k < c.len() - 1 {
-            assert(c2[k + 1] == c[k + 1]);
-            assert(c[k] != last);
-            if ff is Some {
-                let e0 = a0[c[k]].children[0].unwrap();
-                assert(a0.dom().contains(e0));
-                assert(e0 != last) by {
-                    if e0 == last {
-                        let k2 = c.len() - 2;
-                        assert(a0[c[k]].children[0] == Some(last));
-                        assert(a0[last].parent == Some(c[k]));
-                        assert(a0[c[k2]].children[1] == Some(c[k2 + 1]));
-                        assert(a0[last].parent == Some(c[k2]));
-                        if k != k2 { assert(c[k] != c[k2]); }
-                    }
-                }
-            }
-        }
-    }
-}
-
-// the last chain node gets its (optional) else-leaf and the terminal func_true: the chain is complete and denotes poly_fn
-pub proof fn lemma_fp_complete(a0: AArena<2>, a1: AArena<2>, a2: AArena<2>, c: Seq<usize>, p: Polytope, ft: AffFunc, ff: Option<AffFunc>, dim: usize, out: usize, e: usize, t1: usize)
-    requires fp_inv(a0, c, p, ff, dim, out), c.len() == p.mat.nrows(), wf_at(a0, Some(0usize)), p.mat.ncols() == dim,
-        ff is Some ==> ff.unwrap().mat.ncols() == dim && ff.unwrap().mat.nrows() == out
-            && child_added(a0, a1, c.last(), 0, e) && a1[c.last()].value == a0[c.last()].value && same_ap(a1[e].value.aff, ff.unwrap()),
-        ff is None ==> a1 == a0,
-        child_added(a1, a2, c.last(), 1, t1), a2[c.last()].value == a1[c.last()].value, a2[t1].value.aff == ft, ft.ok(), ft.mat.ncols() == dim, ft.mat.nrows() == out,
-    ensures
-        aff_shape_ok(a2, dim),
-        forall|i: usize| a2.dom().contains(i) && #[trigger] a2[i].isleaf ==> a2[i].value.aff.mat.nrows() == out,
-        chain_ok(a2, c, t1, ff is Some), c.len() >= 1, c[0] == 0,
-        forall|k: int| 0 <= k < c.len() ==> row_fn_of(a2[#[trigger] c[k]].value.aff, p, k),
-        forall|k: int| 0 <= k < c.len() && ff is Some ==> same_ap(a2[a2[#[trigger] c[k]].children[0].unwrap()].value.aff, ff.unwrap()),
-{
-    reveal(fp_inv);
-    let last = c.last();
-    assert(c[c.len() - 1] == last);
-    assert(t1 != last && !a1.dom().contains(t1));
-    assert(a2[last].children[1] == Some(t1)) by { assert(a2[last].children@[1] == Some(t1)); }
-    let has_else = ff is Some;
-    if ff is Some {
-        assert(e != last && t1 != e);
-        assert(a2[e] == a1[e]);
-        assert(a2[last].children[0] == Some(e)) by { assert(a2[last].children@[0] == a1[last].children@[0]); assert(a1[last].children@[0] == Some(e)); }
-        assert forall|i: usize| a0.dom().contains(i) && i != last implies a2[i] == a0[i] by { assert(a1[i] == a0[i]); assert(a2[i] == a1[i]); }
-        assert forall|i: usize| #[trigger] a2.dom().contains(i) implies a2[i].value.aff.ok() && a2[i].value.aff.mat.ncols() == dim by {
-            if i != t1 && i != e { assert(a0.dom().contains(i)); }
-        }
-        assert forall|i: usize| a2.dom().contains(i) && #[trigger] a2[i].isleaf implies a2[i].value.aff.mat.nrows() == out by {
-            if i != e && i != t1 { assert(a0.dom().contains(i)); assert(i != last); }
-        }
-    } else {
-        assert(a2[last].children[0].is_none()) by { assert(a2[last].children@[0] == a1[last].children@[0]); }
-        assert forall|i: usize| a0.dom().contains(i) && i != last implies a2[i] == a0[i] by { assert(a2[i] == a1[i]); }
-        assert forall|i: usize| #[trigger] a2.dom().contains(i) implies a2[i].value.aff.ok() && a2[i].value.aff.mat.ncols() == dim by {
-            if i != t1 { assert(a0.dom().contains(i)); }
-        }
-        assert forall|i: usize| a2.dom().contains(i) && #[trigger] a2[i].isleaf implies a2[i].value.aff.mat.nrows() == out by {
-            if i != t1 { assert(a0.dom().contains(i)); assert(i != last); }
-        }
-    }
-    // decisions are exactly the chain nodes, each with one row
-    assert((1usize << 1usize) == 2usize) by(bit_vector);
-    assert forall|i: usize| a2.dom().contains(i) && !(#[trigger] a2[i]).isleaf implies exists|k: int| 0 <= k < c.len() && c[k] == i by {
-        if i == last { assert(c[c.len() - 1] == i); }
-        else {
-            assert(a0.dom().contains(i) && a2[i] == a0[i]);
-            lemma_fp_decisions(a0, c, p, ff, dim, out, i);
-        }
-    }
-    assert forall|i: usize| #![trigger a2[i].value] a2.dom().contains(i) implies a2[i].value.aff.ok() && a2[i].value.aff.mat.ncols() == dim
-        && (!a2[i].isleaf ==> 1 <= a2[i].value.aff.mat.nrows() < 16 && (1usize << (a2[i].value.aff.mat.nrows() as usize)) <= 2) by {
-        if !a2[i].isleaf {
-            let k = choose|k: int| 0 <= k < c.len() && c[k] == i;
-            assert(a0.dom().contains(c[k]));
-            assert(row_fn_of(a0[c[k]].value.aff, p, k));
-        }
-    }
-    assert(chain_ok(a2, c, t1, has_else)) by {
-        assert forall|j: int| 0 <= j < c.len() implies ({
-            let nd = #[trigger] a2[c[j]];
-            &&& a2.dom().contains(c[j]) && !nd.isleaf && nd.value.aff.mat.nrows() == 1
-            &&& nd.children[1] == Some(if j + 1 < c.len() { c[j + 1] } else { t1 })
-            &&& (has_else ==> nd.children[0].is_some() && a2.dom().contains(nd.children[0].unwrap()) && a2[nd.children[0].unwrap()].isleaf)
-            &&& (!has_else ==> nd.children[0].is_none())
-        }) by {
-            assert(a0.dom().contains(c[j]));
-            if j < c.len() - 1 {
-                assert(c[j] != last);
-                if has_else {
-                    let e0 = a0[c[j]].children[0].unwrap();
-                    assert(a0.dom().contains(e0));
-                    assert(e0 != last) by {
-                        if e0 == last {
-                            let k2 = c.len() - 2;
-                            assert(a0[c[j]].children[0] == Some(last));
-                            assert(a0[last].parent == Some(c[j]));
-                            assert(a0[c[k2]].children[1] == Some(c[k2 + 1]));
-                            assert(a0[last].parent == Some(c[k2]));
-                            if j != k2 { assert(c[j] != c[k2]); }
-                        }
-                    }
-                }
-            }
-        }
-    }
-    assert forall|k: int| 0 <= k < c.len() implies row_fn_of(a2[#[trigger] c[k]].value.aff, p, k) by { assert(a0.dom().contains(c[k])); }
-    assert forall|k: int| 0 <= k < c.len() && has_else implies same_ap(a2[a2[#[trigger] c[k]].children[0].unwrap()].value.aff, ff.unwrap()) by {
-        assert(a0.dom().contains(c[k]));
-        if k < c.len() - 1 {
-            assert(c[k] != last);
-            let e0 = a0[c[k]].children[0].unwrap();
-            assert(a0.dom().contains(e0));
-            assert(e0 != last) by {
-                if e0 == last {
-                    let k2 = c.len() - 2;
-                    assert(a0[c[k]].children[0] == Some(last));
-                    assert(a0[last].parent == Some(c[k]));
-                    assert(a0[c[k2]].children[1] == Some(c[k2 + 1]));
-                    assert(a0[last].parent == Some(c[k2]));
-                    if k != k2 { assert(c[k] != c[k2]); }
-                }
-            }
-        }
-    }
-}
-
-// ... and denotes poly_fn
-pub proof fn lemma_fp_final(a2: AArena<2>, c: Seq<usize>, p: Polytope, ft: AffFunc, ff: Option<AffFunc>, dim: usize, t1: usize)
-    requires c.len() == p.mat.nrows(), p.mat.ncols() == dim, a2[t1].value.aff == ft, c.len() >= 1, c[0] == 0,
-        chain_ok(a2, c, t1, ff is Some),
-        forall|k: int| 0 <= k < c.len() ==> row_fn_of(a2[#[trigger] c[k]].value.aff, p, k),
-        forall|k: int| 0 <= k < c.len() && ff is Some ==> same_ap(a2[a2[#[trigger] c[k]].children[0].unwrap()].value.aff, ff.unwrap()),
-    ensures forall|h: Map<usize, nat>, x: V| ranked_down(a2, h) && x.len() == dim ==> #[trigger] tree_fn(a2, h, 0, x) == poly_fn(p, ft, ff, x),
-{
-    let has_else = ff is Some;
-    assert forall|h: Map<usize, nat>, x: V| ranked_down(a2, h) && x.len() == dim implies #[trigger] tree_fn(a2, h, 0, x) == poly_fn(p, ft, ff, x) by {
-        lemma_chain_fn(a2, h, c, t1, has_else, 0, x);
-        lemma_fp_val(a2, c, p, ft, ff, dim, t1, 0, x);
-        if forall|k: int| 0 <= k < p.mat.nrows() ==> #[trigger] p.row_sat(k, x) {
-            assert(p.sat(x));
-        } else {
-            let k = choose|k: int| 0 <= k < p.mat.nrows() && !#[trigger] p.row_sat(k, x);
-            assert(!p.sat(x)) by { if p.sat(x) { assert(p.row_sat(k, x)); } }
-        }
-    }
-}
-// in the partial chain every decision is a chain node
-pub proof fn lemma_fp_decisions(a: AArena<2>, c: Seq<usize>, p: Polytope, ff: Option<AffFunc>, dim: usize, out: usize, i: usize)
-    requires fp_inv(a, c, p, ff, dim, out), wf_at(a, Some(0usize)), a.dom().contains(i), !a[i].isleaf
-    ensures exists|k: int| 0 <= k < c.len() && c[k] == i
-    decreases 0int
-{
-    reveal(fp_inv);
-    // walk up: every node's parent chain reaches the root c[0]; a decision that is not on the chain would have to hang below a chain node's
-    // label-0 terminal (impossible: terminals have no children) or be the last node (a leaf). Proved by rank induction.
-    let d = choose|d: Map<usize, nat>| ranked(a, d);
-    lemma_fp_on_chain(a, c, p, ff, dim, out, d, i);
-}
-pub proof fn lemma_fp_on_chain(a: AArena<2>, c: Seq<usize>, p: Polytope, ff: Option<AffFunc>, dim: usize, out: usize, d: Map<usize, nat>, i: usize)
-    requires fp_inv(a, c, p, ff, dim, out), wf_at(a, Some(0usize)), ranked(a, d), a.dom().contains(i)
-    ensures (exists|k: int| 0 <= k < c.len() && c[k] == i) || (a[i].isleaf)
-    decreases d[i]
-{
-    reveal(fp_inv);
-    if a[i].parent.is_none() {
-        assert(i == 0);
-        assert(c[0] == i);
-    } else {
-        let pp = a[i].parent.unwrap();
-        assert(a.dom().contains(pp) && d[pp] < d[i]);
-        lemma_fp_on_chain(a, c, p, ff, dim, out, d, pp);
-        let l = choose|l: int| 0 <= l < 2 && #[trigger] a[pp].children[l] == Some(i);
-        assert(!no_kids(a[pp]));
-        assert(!a[pp].isleaf);
-        let k = choose|k: int| 0 <= k < c.len() && c[k] == pp;
-        assert(k < c.len() - 1) by { if k == c.len() - 1 { assert(c[k] == c.last()); } }
-        if l == 1 { assert(c[k + 1] == i); }
-        else { assert(ff is Some); assert(a[i].isleaf); }
-    }
-}
-
-// value of the completed chain from position j
-pub proof fn lemma_fp_val(a2: AArena<2>, c: Seq<usize>, p: Polytope, ft: AffFunc, ff: Option<AffFunc>, dim: usize, t1: usize, j: int, x: V)
-    requires 0 <= j <= c.len(), c.len() == p.mat.nrows(), x.len() == dim, c.len() >= 1, p.mat.ncols() == dim, a2[t1].value.aff == ft,
-        forall|k: int| 0 <= k < c.len() ==> row_fn_of(a2[#[trigger] c[k]].value.aff, p, k),
-        forall|k: int| 0 <= k < c.len() && ff is Some ==> same_ap(a2[a2[#[trigger] c[k]].children[0].unwrap()].value.aff, ff.unwrap()),
-    ensures chain_val(a2, c, t1, ff is Some, j, x) ==
-        (if (forall|k: int| j <= k < p.mat.nrows() ==> #[trigger] p.row_sat(k, x)) { Some(ft.ap(x)) } else { match ff { Some(g) => Some(g.ap(x)), None => None } })
-    decreases c.len() - j
-{
-    if j < c.len() {
-        lemma_fp_val(a2, c, p, ft, ff, dim, t1, j + 1, x);
-        assert(a2[c[j]].value.aff.row_sat(0, x) <==> p.row_sat(j, x));
-        if a2[c[j]].value.aff.row_sat(0, x) {
-            if forall|k: int| j + 1 <= k < p.mat.nrows() ==> #[trigger] p.row_sat(k, x) {
-                assert forall|k: int| j <= k < p.mat.nrows() implies #[trigger] p.row_sat(k, x) by {}
-            } else {
-                let k = choose|k: int| j + 1 <= k < p.mat.nrows() && !#[trigger] p.row_sat(k, x);
-                assert(!(forall|k: int| j <= k < p.mat.nrows() ==> #[trigger] p.row_sat(k, x))) by {
-                    if forall|k: int| j <= k < p.mat.nrows() ==> #[trigger] p.row_sat(k, x) { assert(p.row_sat(k, x)); }
-                }
-            }
-        } else {
-            assert(!(forall|k: int| j <= k < p.mat.nrows() ==> #[trigger] p.row_sat(k, x))) by {
-                if forall|k: int| j <= k < p.mat.nrows() ==> #[trigger] p.row_sat(k, x) { assert(p.row_sat(j, x)); }
-            }
-            if ff is Some {
-                let e = a2[c[j]].children[0].unwrap();
-                assert(same_ap(a2[e].value.aff, ff.unwrap()));
-                assert(a2[e].value.aff.ap(x) == ff.unwrap().ap(x));
-            }
-        }
-    }
-}
 
 impl AffTree<2> {
 //@fn src/pwl/afftree.rs | impl AffTree<2> | from_poly
@@ -388,46 +84,49 @@ impl AffTree<2> {
         broadcast use axiom_array2_shape;
 //@hint before tree.tree.node_value_mut(parent).unwrap().aff = aff;
         let ghost a_w = tree.a();
-        proof { lemma_row_fn_clone(__rows@[0], aff, poly, 0); }
+        proof { lemma_row_fn_clone(__rows@[0], aff, rows_of(poly), 0); }
 //@hint after tree.tree.node_value_mut(parent).unwrap().aff = aff;
         let ghost mut c: Seq<usize> = seq![0usize];
         proof {
             assert(same_shape(a_w, tree.a()));
             lemma_same_shape_wf(a_w, tree.a(), Some(0usize));
             assert(no_kids(tree.a()[0])) by { assert(tree.a()[0].children == a_w[0].children); }
-            lemma_fp_init(tree.a(), poly, ff, dim, out);
+            lemma_fp_init(tree.a(), rows_of(poly), ff, dim, out);
         }
 //@loop 1
             invariant
                 poly.ok(), func_true.ok(), poly.mat.ncols() == dim, func_true.mat.ncols() == dim, func_true.mat.nrows() == out,
                 ff == (match func_false { Some(g) => Some(*g), None => None }),
                 ff is Some ==> ff.unwrap().ok() && ff.unwrap().mat.ncols() == dim && ff.unwrap().mat.nrows() == out,
-                __rows@.len() == poly.mat.nrows(), forall|j: int| 0 <= j < __rows@.len() ==> row_fn_of(#[trigger] __rows@[j], poly, j),
+                __rows@.len() == poly.mat.nrows(), forall|j: int| 0 <= j < __rows@.len() ==> row_fn_of(#[trigger] __rows@[j], rows_of(poly), j),
                 1 <= __j <= __rows@.len(),
                 tree.tree.wf(), tree.tree.root == Some(0usize), tree.in_dim == dim,
-                fp_inv(tree.a(), c, poly, ff, dim, out), c.len() == __j, parent == c.last(),
+                fp_inv(tree.a(), c, rows_of(poly), ff, dim, out), c.len() == __j, parent == c.last(),
             decreases __rows@.len() - __j
 //@hint loop 1 start
             let ghost a0 = tree.a();
-            proof { lemma_fp_facts(tree.a(), c, poly, ff, dim, out); }
+            proof { lemma_fp_facts(tree.a(), c, rows_of(poly), ff, dim, out); }
 //@hint before let aff = decision.clone_aff();
             let ghost a1 = tree.a();
 //@hint after parent = tree.add_child_node(parent, 1, aff).unwrap();
             proof {
-                lemma_row_fn_clone(__rows@[__j - 1], tree.a()[parent].value.aff, poly, __j - 1);
-                lemma_fp_step(a0, a1, tree.a(), c, poly, ff, dim, out, a1[c.last()].children[0].unwrap(), parent);
+                lemma_row_fn_clone(__rows@[__j - 1], tree.a()[parent].value.aff, rows_of(poly), __j - 1);
+                lemma_fp_step(a0, a1, tree.a(), c, rows_of(poly), ff, dim, out, a1[c.last()].children[0].unwrap(), parent);
                 c = c.push(parent);
             }
 //@hint loop 1 after
         let ghost b0 = tree.a();
-        proof { lemma_fp_facts(tree.a(), c, poly, ff, dim, out); }
+        proof { lemma_fp_facts(tree.a(), c, rows_of(poly), ff, dim, out); }
 //@hint before tree.add_child_node(parent, 1, func_true).unwrap();
         let ghost b1 = tree.a();
 //@hint after tree.add_child_node(parent, 1, func_true).unwrap();
         proof {
             let t1 = tree.a()[c.last()].children[1].unwrap();
-            lemma_fp_complete(b0, b1, tree.a(), c, poly, func_true, ff, dim, out, b1[c.last()].children[0].unwrap(), t1);
-            lemma_fp_final(tree.a(), c, poly, func_true, ff, dim, t1);
+            lemma_fp_complete(b0, b1, tree.a(), c, rows_of(poly), func_true, ff, dim, out, b1[c.last()].children[0].unwrap(), t1);
+            lemma_fp_final(tree.a(), c, rows_of(poly), func_true, ff, dim, t1);
+            assert forall|h: Map<usize, nat>, x: V| ranked_down(tree.a(), h) && x.len() == dim implies #[trigger] tree_fn(tree.a(), h, 0, x) == poly_fn(poly, func_true, ff, x) by {
+                lemma_rows_of_all(poly, x);
+            }
         }
 //@end
 }
